@@ -1,16 +1,109 @@
-//! Suite C04 (stub — replaced when the property's harness is built).
+//! Suite C04: no received frame or network command can panic or hang the device (MAC level).
 #![allow(dead_code, unused_imports)]
+use crate::mac::*;
+use crate::macgen::*;
 use crate::util::*;
 
-pub fn eval(_op: &str) -> String {
-    "bad-op".into()
+pub fn eval(op: &str) -> String {
+    let outs = run_history(op);
+    format!("{} ## oracle={}", outs.join(" ; "), oracle(op, &outs))
 }
 
 pub fn expand(_op: &str) -> Vec<String> {
     vec![]
 }
 
-pub fn run(_tier: &str, _seed: u64, dir: &str) {
-    let sink = Sink::new(dir);
-    sink.finish(dir, "stub", false, serde_json::json!({}));
+/// every call returns (no PANIC, no HANG) and the device can still transmit afterwards
+pub fn oracle(op: &str, outs: &[String]) -> String {
+    let n_ev = op.split(';').count() - 1;
+    for o in outs {
+        if o == "PANIC" || o == "HANG" {
+            return format!("FAIL:{}-at-event-{}", o, outs.len());
+        }
+        if o == "bad-op" || o.starts_with("bad-session") {
+            return "FAIL:harness-generated-a-malformed-op".into();
+        }
+    }
+    if outs.len() != n_ev {
+        return "FAIL:history-stopped-early".into();
+    }
+    "ok".into()
+}
+
+/// the hang / panic scenarios found while designing (DESIGN §6), kept as a corpus that runs first
+pub fn corpus() -> Vec<(String, &'static str)> {
+    let mut v = vec![];
+    // ChMaskCntl = 4 in every region
+    for region in REGIONS {
+        let mut h = Hist::new("C04", region, 20, 0, 7, &[], None);
+        h.abp().send(1, false, &[1]).rx_auth("rx1", 0, 1, false, &link_adr_req(0, 0, 0x00ff, 4, 1), None, &[]).snap().send(1, false, &[2]).timeout();
+        v.push((h.done(), "corpus-chmaskcntl4"));
+        // JoinAccept with RX2DR = 15
+        let mut h = Hist::new("C04", region, 20, 0, 7, &[], None);
+        h.go_live();
+        h.ev("otaa");
+        let acc = build_join_accept(&ROOT_KEY, 0x01020304, 0x0f, 1, &CfDesc::None);
+        h.rx_bytes("rx1", 0, &acc, None).snap().send(1, false, &[1]).timeout();
+        v.push((h.done(), "corpus-joinaccept-rx2dr15"));
+        // oversized frame while listening in Class C
+        let mut h = Hist::new("C04", region, 20, 0, 7, &[], None);
+        h.abp().send(1, false, &[1]).timeout();
+        h.rx_auth("rxc", 0, 1, false, &[], Some(3), &vec![0x55; 235]);
+        h.snap().send(1, false, &[2]).timeout();
+        v.push((h.done(), "corpus-rxc-oversized"));
+    }
+    // EU868: NewChannelReq ch5, LinkADRReq mask={5}, NewChannelReq ch5 freq 0 → next send must return
+    let mut h = Hist::new("C04", "EU868", 20, 0, 7, &[], None);
+    h.abp().send(1, false, &[1]).rx_auth("rx1", 0, 1, false, &new_channel_req(5, 867_100_000, 0x50), None, &[]);
+    h.send(1, false, &[2]).rx_auth("rx1", 0, 1, false, &link_adr_req(5, 1, 0x0020, 0, 1), None, &[]);
+    h.send(1, false, &[3]).rx_auth("rx1", 0, 1, false, &new_channel_req(5, 0, 0x50), None, &[]);
+    h.snap().send(1, false, &[4]).timeout().snap();
+    v.push((h.done(), "corpus-remove-last-enabled-channel"));
+    // US915: DR4 with only 500 kHz channels, then ADR back-off
+    let mut h = Hist::new("C04", "US915", 20, 0, 7, &[], None);
+    h.abp().send(1, false, &[1]).rx_auth("rx1", 0, 1, false, &link_adr_req(4, 0, 0x00ff, 7, 1), None, &[]).snap();
+    for i in 0..100u32 {
+        h.send(1, false, &[i as u8]).timeout();
+    }
+    h.snap();
+    v.push((h.done(), "corpus-adr-backoff-to-masked-datarate"));
+    // type-1 CFList without usable channels
+    for region in ["US915", "AU915"] {
+        let mut h = Hist::new("C04", region, 20, 0, 7, &[], None);
+        h.go_live();
+        h.ev("otaa");
+        let acc = build_join_accept(&ROOT_KEY, 0x01020304, 0, 1, &CfDesc::Fixed([0u8; 9]));
+        h.rx_bytes("rx1", 0, &acc, None).snap().send(1, false, &[1]).timeout();
+        v.push((h.done(), "corpus-cflist-empty-mask"));
+    }
+    v
+}
+
+pub fn run(tier: &str, seed: u64, dir: &str) {
+    let mut rng = Rng::new(seed);
+    let mut sink = Sink::new(dir);
+    let thorough = tier == "thorough";
+    for (op, class) in corpus() {
+        sink.case(&op, &eval(&op), class, true);
+    }
+    let per_region = if thorough { 4000 } else { 220 };
+    for region in REGIONS {
+        for i in 0..per_region {
+            let mut o = Opts::default();
+            o.steps = if i % 10 == 0 { 40 } else { 4 + rng.below(10) as usize };
+            o.snaps = i % 3 != 0;
+            if i % 7 == 0 {
+                o.counters = Some(*rng.pick(&[(0xfffe, Some(0xfffe)), (0xffff_fffd, Some(0xffff_fff0)), (0x1_0000, None), (70000, Some(0xffff))]));
+                o.otaa_pct = 0;
+            }
+            let op = gen_history("C04", &mut rng, region, &o);
+            sink.case(&op, &eval(&op), "random-history", true);
+        }
+    }
+    sink.finish(
+        dir,
+        "MAC-level histories through the real Mac (verif hook): ABP / restored sessions at counter boundaries / OTAA joins with arbitrary DLSettings, RxDelay and CFLists (types 0, 1, RFU); uplinks on arbitrary ports incl. 0; per window nothing / rejected frames (random, bit-flipped, other key, replayed, far-future, wrong-key JoinAccept, short) / oversized / authentic downlinks carrying arbitrary handled, unhandled, unknown and truncated MAC commands in FOpts or on port 0; Class C receptions; ADR and data-rate changes; join bias on fixed plans; 9 regions; plus the DESIGN §6 panic/hang scenarios as a corpus. The device's RNG is owned by the harness with a draw budget so that an RNG-driven endless loop shows up as HANG. Distinct = distinct op lines; every history is non-trivial (>= 1 uplink).",
+        false,
+        serde_json::json!({}),
+    );
 }
